@@ -334,7 +334,13 @@ def rand_resolver_programs(seed, n, path):
                     o = {"a": "lit", "t": t}
                     nres += 1
                 else:
-                    o = {"a": "cancel", "t": t}
+                    # cancel() or destruction, often at the very instant a lookup completes (the resolver's timer has
+                    # expired, its handler has not run yet)
+                    hosts = [x for x in ops if x["a"] == "host" and "inh" not in x]
+                    if hosts and rng.random() < 0.4:
+                        h = rng.choice(hosts[-3:])
+                        t = max(t, h["t"] + conf[h["name"]]["lat"])
+                    o = {"a": rng.choice(["cancel", "cancel", "destroy"]), "t": t}
                 if nres > 1 and rng.random() < 0.2:
                     o["inh"] = rng.randint(1, nres - 1)
                 ops.append(o)
@@ -757,6 +763,8 @@ def classify_udp_reject(rj):
         if ev.get("inline"):
             return "C04", "udp.handler-inline"
         return "C08", "udp.receive(id=%s,n=%s)" % ("?" if ev.get("id") == -1 else "k", "trunc" if sd is None else "n")
+    if name == "End" and (rj.get("state_json") or {}).get("owed"):
+        return "C04", "udp.aborted-or-superseded-handler-never-invoked"
     if name in ("End", "Lost"):
         missing = [i for i, sd in sends.items() if sd["ok"] and i not in arrived and i not in lost and not (sd["over"] and sd["df"])]
         if name == "End" and missing and all(sends[i]["df"] or sends[i]["over"] for i in missing):
@@ -814,6 +822,8 @@ def udp_pipeline(ctx, owner, n_quick=2500, n_thorough=60000, mc=True):
                             nt = '"from":["X1"' in txt
                         elif owner == "C09":
                             nt = txt.count('"e":"Arrive"') >= 2
+                        elif owner == "C04":
+                            nt = '"e":"RecvAborted"' in txt or '"e":"WaitWAborted"' in txt
                         else:
                             nt = '"op":"df"' in txt and '"e":"Send"' in txt
                         if nt:
@@ -914,8 +924,8 @@ def rand_tcp_program(rng):
              "target": ["B1", acceptors[acc]["port"] if not refuse else 8099],
              "c2a": {"bytes": c2a, "sizes": sizes(), "nbufs": rng.choice([1, 1, 2, 3])},
              "a2c": {"bytes": a2c, "sizes": sizes(), "nbufs": rng.choice([1, 2])},
-             "cread": {"style": rng.choice(["read", "wait"]), "caps": caps()},
-             "aread": {"style": rng.choice(["read", "wait"]), "caps": caps()},
+             "cread": {"style": rng.choice(["read", "wait"]), "caps": caps(), "twice": rng.choice([0, 0, 0, 0, 2, 3, 5])},
+             "aread": {"style": rng.choice(["read", "wait"]), "caps": caps(), "twice": rng.choice([0, 0, 0, 0, 1, 2, 7])},
              "close": rng.choice(["none", "client", "acceptor", "client"])}
         if relisten and acc == "l2":
             # connects to the re-bound, non-listening endpoint must be refused
@@ -1107,6 +1117,8 @@ def tcp_pipeline(ctx, owner, n_quick=160, n_thorough=6000, extra_files=()):
                             nt = '"X1"' in txt or '"X2"' in txt
                         elif owner == "C09":
                             nt = '"e":"Drop"' in txt or txt.count('"kind":"payload"') >= 6
+                        elif owner == "C04":
+                            nt = '"ec":"aborted"' in txt
                         else:
                             nt = '"kind":"payload"' in txt
                         if nt:
@@ -1251,8 +1263,10 @@ def fault_base_scenarios():
     S.append(("S3-lossy", {"topo": topo(True), "acceptors": acc, "ctl": [], "conns": [conn(1, 2, 12000, 0)]}, ["c1", "a1"]))
     S.append(("S4-accept-late+refused", {"topo": topo(False), "acceptors": acc, "ctl": [],
               "conns": [conn(1, 3, 2000, 500, accept_at=40000, style="wait"), conn(2, 2, 100, 0, target=8099, caddr="A2")]}, ["c1", "l1", "c2"]))
-    S.append(("S7-two-connections", {"topo": topo(False), "acceptors": acc, "ctl": [],
-              "conns": [conn(1, 1, 6000, 2000), conn(2, 2, 5000, 1000, caddr="A2", connect_at=9, close="acceptor", style="wait")]}, ["c1", "a1", "l1"]))
+    s7 = [conn(1, 1, 6000, 2000), conn(2, 2, 5000, 1000, caddr="A2", connect_at=9, close="acceptor", style="wait")]
+    s7[0]["aread"]["twice"] = 2     # every second read / wait is issued twice: the first is superseded (C04)
+    s7[0]["cread"]["twice"] = 3
+    S.append(("S7-two-connections", {"topo": topo(False), "acceptors": acc, "ctl": [], "conns": s7}, ["c1", "a1", "l1"]))
     c1 = conn(1, 1, 9000, 1000)
     c1["close_at"] = 30000
     c2 = conn(2, 2, 4000, 500, accept_at=30010, connect_at=30500)
@@ -1427,6 +1441,13 @@ def c04(ctx):
     ctx.assumptions = ["whether an operation 'had already completed' at the intervention is not observable: an aborted or the natural "
                        "result is accepted, exactly once"]
     fault_enum(ctx, "C04")
+    # random programs: superseded reads / waits / accepts, close and cancel with operations outstanding (TCP), superseded
+    # receives and writable-waits (UDP); a run is C04's when a handler ran inline, twice, or is still owed at the end
+    ctx.rule += ("; plus random TCP and UDP programs in which reads, waits, accepts, receives and writable-waits are issued while one "
+                 "of the same kind is outstanding (the superseded handler must run exactly once: aborted, or with the result it had "
+                 "already completed with)")
+    tcp_pipeline(ctx, "C04", n_quick=120, n_thorough=3000)
+    udp_pipeline(ctx, "C04", n_quick=400, n_thorough=10000, mc=False)
     # timers: inline / nested / order signatures of the SimCore corpus
     for cfg, sim in (("Gen_SimCore_q.cfg", None), ("Gen_SimCore_sim.cfg", (800 if ctx.tier == "quick" else 10000, 300))):
         f1 = ctx.path("beh_%s.ndjson" % ("sim" if sim else "bfs"))
